@@ -164,6 +164,10 @@ CANARIES = [
     ('writenode-payload-after-a-gap', 'C05', 'src/page.rs', '        let mut buf = &mut buf[(total_header as usize)..];', '        let mut buf = &mut buf[(total_header as usize + 8)..];'),
     ('new-child-parent-not-marked-dirty', 'C07', 'src/bucket.rs', '    fn new_child<\'a>(&\'a mut self, name: Bytes<\'b>) -> RefMut<InnerBucket<\'b>> {\n        self.dirty = true;\n', '    fn new_child<\'a>(&\'a mut self, name: Bytes<\'b>) -> RefMut<InnerBucket<\'b>> {\n'),
     ('new-child-root-is-a-page', 'C07', 'src/bucket.rs', '            root: PageNodeID::Node(0),', '            root: PageNodeID::Page(0),'),
+    # the public read entry points of a bucket handle (unit bucketops)
+    ('bucket-get-kv-answers-only-when-dirty', 'C07', 'src/bucket.rs', '        match b.get(key) {\n            Some(data) => data.into(),\n            None => None,\n        }', '        match b.get(key) {\n            Some(data) if b.dirty => data.into(),\n            _ => None,\n        }'),
+    ('bucket-next-int-is-the-root-page', 'C07', 'src/bucket.rs', '            panic!("Cannot get next int from a deleted bucket.");\n        }\n        b.meta.next_int', '            panic!("Cannot get next int from a deleted bucket.");\n        }\n        b.meta.root_page'),
+    ('bucket-get-drops-the-answer', 'C07', 'src/bucket.rs', '        b.get(key).map(|data| data.into())', '        b.get(key).map(|data| data.into()).filter(|_| false)'),
 ]
 
 
@@ -227,6 +231,7 @@ EQUIVALENTS = [
     ('eq-commit-slot-by-if', 'C02', 'src/tx.rs', '                let meta_page_id = u64::from(self.meta.meta_page == 0);', '                let meta_page_id: u64 = if self.meta.meta_page == 0 { 1 } else { 0 };'),
     ('eq-commit-flush-then-sync-block', 'C11', 'src/tx.rs', '            file.flush()?;\n            file.sync_all()?;\n        }\n', '            {\n                file.flush()?;\n            }\n            file.sync_all()?;\n        }\n'),
     ('eq-open-lock-binding', 'C13', 'src/db.rs', '        file.lock_exclusive()?;\n', '        let locked = file.lock_exclusive();\n        locked?;\n'),
+    ('eq-bucket-get-kv-if-let', 'C07', 'src/bucket.rs', '        match b.get(key) {\n            Some(data) => data.into(),\n            None => None,\n        }', '        if let Some(data) = b.get(key) {\n            return data.into();\n        }\n        None'),
 ]
 CANARY_EXPECT_NOT_KILLED = set(c[0] for c in EQUIVALENTS)
 CANARIES = CANARIES + EQUIVALENTS
